@@ -212,28 +212,31 @@ Record rt_hs := mkRtHs {
   x_bufin : list (rt_src * list N);   (* stdinBuffer: parked on the way to the server *)
   x_bufout : list (rt_src * list N);  (* stdoutBuffer: parked on the way to the client *)
   x_outin : list rt_out;              (* written to osStdinChan: in-band to the server *)
-  x_outout : list rt_out              (* written to osStdoutChan / bypassTmuxChan: in-band to the client *)
+  x_outout : list rt_out;             (* written to osStdoutChan / bypassTmuxChan: in-band to the client *)
+  x_seen : list (rt_src * list N)     (* ghost: every chunk a tunnel pump has read, in the order of the reads *)
 }.
 
-Definition rt_hs_init : rt_hs := mkRtHs StHandshaking HsRecvAct false [] [] [] [].
+Definition rt_hs_init : rt_hs := mkRtHs StHandshaking HsRecvAct false [] [] [] [] [].
 Definition rt_buf (d : rt_dir) (x : rt_hs) := match d with RdIn => x_bufin x | RdOut => x_bufout x end.
 Definition rt_outs (d : rt_dir) (x : rt_hs) := match d with RdIn => x_outin x | RdOut => x_outout x end.
 Definition rt_set_buf (d : rt_dir) (b : list (rt_src * list N)) (x : rt_hs) : rt_hs :=
   match d with
-  | RdIn => mkRtHs (x_status x) (x_pc x) (x_lock x) b (x_bufout x) (x_outin x) (x_outout x)
-  | RdOut => mkRtHs (x_status x) (x_pc x) (x_lock x) (x_bufin x) b (x_outin x) (x_outout x)
+  | RdIn => mkRtHs (x_status x) (x_pc x) (x_lock x) b (x_bufout x) (x_outin x) (x_outout x) (x_seen x)
+  | RdOut => mkRtHs (x_status x) (x_pc x) (x_lock x) (x_bufin x) b (x_outin x) (x_outout x) (x_seen x)
   end.
 Definition rt_add_out (d : rt_dir) (o : rt_out) (x : rt_hs) : rt_hs :=
   match d with
-  | RdIn => mkRtHs (x_status x) (x_pc x) (x_lock x) (x_bufin x) (x_bufout x) (x_outin x ++ [o]) (x_outout x)
-  | RdOut => mkRtHs (x_status x) (x_pc x) (x_lock x) (x_bufin x) (x_bufout x) (x_outin x) (x_outout x ++ [o])
+  | RdIn => mkRtHs (x_status x) (x_pc x) (x_lock x) (x_bufin x) (x_bufout x) (x_outin x ++ [o]) (x_outout x) (x_seen x)
+  | RdOut => mkRtHs (x_status x) (x_pc x) (x_lock x) (x_bufin x) (x_bufout x) (x_outin x) (x_outout x ++ [o]) (x_seen x)
   end.
 Definition rt_set_pc_lock (pc : rt_hspc) (lk : bool) (x : rt_hs) : rt_hs :=
-  mkRtHs (x_status x) pc lk (x_bufin x) (x_bufout x) (x_outin x) (x_outout x).
+  mkRtHs (x_status x) pc lk (x_bufin x) (x_bufout x) (x_outin x) (x_outout x) (x_seen x).
 Definition rt_hs_finish (st : rt_status) (x : rt_hs) : rt_hs :=
-  mkRtHs st HsIdle false (x_bufin x) (x_bufout x) (x_outin x) (x_outout x).
+  mkRtHs st HsIdle false (x_bufin x) (x_bufout x) (x_outin x) (x_outout x) (x_seen x).
+Definition rt_add_seen (y : rt_src * list N) (x : rt_hs) : rt_hs :=
+  mkRtHs (x_status x) (x_pc x) (x_lock x) (x_bufin x) (x_bufout x) (x_outin x) (x_outout x) (x_seen x ++ [y]).
 Definition rt_set_status (st : rt_status) (x : rt_hs) : rt_hs :=
-  mkRtHs st (x_pc x) (x_lock x) (x_bufin x) (x_bufout x) (x_outin x) (x_outout x).
+  mkRtHs st (x_pc x) (x_lock x) (x_bufin x) (x_bufout x) (x_outin x) (x_outout x) (x_seen x).
 
 (* a readLine of the handshake goroutine takes the first k bytes out of a buffer (the rest of a chunk
    that is cut stays in front, as trzszBuffer.nextBuf / nextIdx keep it) *)
@@ -533,11 +536,12 @@ Definition rt_step (ch1 sh4 ch2 sh3 : list N) (s : rt_state) (l : rt_label) : op
             then      (* if r := t.relay.Load(); r != nil { … addHandshakeBuffer(buffer, buf, true) … continue } *)
               if x_lock (r_x s) then None
               else Some (mkRt (upd c (rt_set_src_end d (rt_end_drop n e)) (r_pairs s)) (r_lis s) (r_apc s) (r_connector s)
-                              (r_trelay s) (r_era s) (r_tconnected s) (rt_set_buf d (rt_buf d (r_x s) ++ [x]) (r_x s)))
+                              (r_trelay s) (r_era s) (r_tconnected s) (rt_add_seen x (rt_set_buf d (rt_buf d (r_x s) ++ [x]) (r_x s))))
             else
               if rt_chan_has_room h
-              then Some (rt_upd_pair s c (fun p =>
+              then Some (rt_with_x (rt_upd_pair s c (fun p =>
                      rt_set_src_end d (rt_end_drop n e) (rt_set_br (rt_set_half d (rt_half_push x h) b) p)))
+                                   (rt_add_seen x (r_x s)))
               else None
           else None
         | _ => None
@@ -678,6 +682,26 @@ Definition rt_tag_ok (d : rt_dir) (c : nat) (x : rt_src * list N) : bool :=
   end.
 
 Definition rt_payload (l : list (rt_src * list N)) : list N := concat (map snd l).
+
+(* ORDER through a bridge.  [rt_own d c l]: the bytes of the chunks of l that pair c's own pump of direction d read;
+   [rt_pipe]: what of them is on its way, nearest to the far connection first: written by the writer, in the channel,
+   parked in the relay's handshake buffer; [rt_sub a b]: a is b with some elements left out, the order kept. *)
+Definition rt_src_eqb (a b : rt_src) : bool :=
+  match a, b with
+  | RsCli x, RsCli y => Nat.eqb x y
+  | RsSrv x, RsSrv y => Nat.eqb x y
+  | RsRelay, RsRelay => true
+  | RsInband g, RsInband h => Bool.eqb g h
+  | _, _ => false
+  end.
+Definition rt_own (d : rt_dir) (c : nat) (l : list (rt_src * list N)) : list N :=
+  rt_payload (filter (fun x => rt_src_eqb (fst x) (rt_tag d c)) l).
+Definition rt_pipe (d : rt_dir) (c : nat) (b : rt_bridge) (x : rt_hs) : list N :=
+  rt_own d c (h_log (rt_half_of d b)) ++ rt_own d c (h_chan (rt_half_of d b)) ++ rt_own d c (rt_buf d x).
+Inductive rt_sub : list N -> list N -> Prop :=
+| rt_sub_nil : forall l, rt_sub [] l
+| rt_sub_keep : forall x a b, rt_sub a b -> rt_sub (x :: a) (x :: b)
+| rt_sub_skip : forall x a b, rt_sub a b -> rt_sub a (x :: b).
 
 (* a pump of pair c is in its loop and the connection it reads has been closed by the relay *)
 Definition rt_spinning (s : rt_state) (c : nat) (d : rt_dir) : Prop :=
